@@ -193,12 +193,17 @@ func normVal(v any) any {
 
 // ---------------------------------------------------------------- data
 
+// a defined string type used as a map key (a language code, an id): Go indexing m[c17Lang("en")] reaches the element
+type c17Lang string
+
 func c17Nested() map[string]any {
 	return map[string]any{
 		"m":    map[string]any{"k": 1, "s": "v", "nil": nil, "l": []any{1, "two", map[string]any{"z": true}}, "0": "zero-key"},
 		"sm":   map[string]string{"k": "v"},
 		"mi":   map[string]int{"one": 1},
 		"im":   map[int]string{1: "x"},
+		"lm":   map[c17Lang]string{"k": "lv", "en": "Hello", "0": "zero"},
+		"lma":  map[c17Lang]any{"k": map[c17Lang]int{"one": 1}, "l": []any{"a", "b"}},
 		"arr":  [2]int{7, 8},
 		"sl":   []int{1, 2, 3},
 		"ss":   []S2{{1, "a"}, {2, "b"}},
@@ -228,6 +233,9 @@ func c17Roots() []func() any {
 		func() any { x := s1(); return &x },
 		func() any { return S3{Title: "t", Name: "gn", N: 2} },
 		func() any { return S2{X: 5, Y: "why"} },
+		func() any { return map[c17Lang]string{"a": "root-la", "name": "root-ln", "k": "root-lk"} },
+		func() any { return map[string]string{"a": "root-sa", "name": "root-sn", "m": "root-sm"} },
+		func() any { return map[string]int{"a": 1, "n": 0, "Count": 5} },
 		func() any { return S4{Base: Base{Created: "2024-01-01", ID: 1, note: "n"}, Title: "t4", ID: 9} },
 		func() any { x := S4{Base: Base{Created: "2024-02-02", ID: 2}, Title: "p4", ID: 8}; return &x },
 		func() any { return S5{Base: &Base{Created: "1999-09-09", ID: 3}, Title: "t5"} },
